@@ -7,7 +7,9 @@ import (
 	"fmt"
 	"io"
 	"math/rand"
+	"os"
 	"sync"
+	"syscall"
 
 	"git.metabarcoding.org/obitools/obitools4/obitools4/pkg/obiformats"
 	"git.metabarcoding.org/obitools/obitools4/obitools4/pkg/obiiter"
@@ -36,6 +38,7 @@ type Sink struct {
 	Short     bool   // the failing write is a short write (n < len, err = io.ErrShortWrite)
 	Refused   int    // number of refusals reported to the writer
 	OnRefuse  func() // called at the first refusal
+	Err       error  // the error returned by a refusal (nil: ErrInjected)
 	accepted  int64
 }
 
@@ -43,6 +46,22 @@ type Sink struct {
 func NewSink() *Sink { return &Sink{Closed: make(chan struct{}), FailAt: -1} }
 
 var ErrInjected = fmt.Errorf("injected write fault (no space left on device)")
+
+// Errnos are the error values a faulty sink can be told to return (Sink.Err), shaped like the
+// errors of a real file: disk full, closed pipe, I/O error.
+var Errnos = []error{
+	ErrInjected,
+	&os.PathError{Op: "write", Path: "out", Err: syscall.ENOSPC},
+	&os.PathError{Op: "write", Path: "out", Err: syscall.EPIPE},
+	&os.PathError{Op: "write", Path: "out", Err: syscall.EIO},
+}
+
+func (s *Sink) fault() error {
+	if s.Err != nil {
+		return s.Err
+	}
+	return ErrInjected
+}
 
 func (s *Sink) Write(p []byte) (int, error) {
 	s.mu.Lock()
@@ -67,7 +86,7 @@ func (s *Sink) Write(p []byte) (int, error) {
 			return n, io.ErrShortWrite
 		}
 		s.FailAt = s.accepted
-		return 0, ErrInjected
+		return 0, s.fault()
 	}
 	s.accepted += int64(len(p))
 	return s.Buf.Write(p)
@@ -85,7 +104,7 @@ func (s *Sink) Close() error {
 		if s.Refused == 1 && s.OnRefuse != nil {
 			s.OnRefuse()
 		}
-		return ErrInjected
+		return s.fault()
 	}
 	return nil
 }
